@@ -102,7 +102,7 @@ Lemma C13_emission_helpers_as_modelled :
   ("appendStructKey", "{ b = appendIndent(ctx, b, code.Indent) b = append(b, code.Key...) return append(b, ' ') }");
   ("appendStructEndSkipLast", "{ last := len(b) - 1 if b[last-1] == '{' { b[last] = '}' } else { if b[last] == '\n' { b = b[:len(b)-2] } b = append(b, '\n') b = appendIndent(ctx, b, code.Indent-1) b = append(b, '}') } return appendComma(ctx, b) }");
   ("appendArrayElemIndent", "{ return appendIndent(ctx, b, code.Indent+1) }");
-  ("appendMapKeyIndent", "{ return appendIndent(ctx, b, code.Indent) }")] /\
+  ("appendMapKeyIndent", "{ return appendIndent(ctx, b, code.Indent+1) }")] /\
   append_indent_body = "{ b = append(b, ctx.Prefix...) indentNum := ctx.BaseIndent + indent for i := uint32(0); i < indentNum; i++ { b = append(b, ctx.IndentStr...) } return b }" /\
   marshal_indent_cut = "buf = buf[:len(buf)-2]".
 Proof. repeat split; reflexivity. Qed.
